@@ -4,8 +4,10 @@
 mod c01;
 mod c02;
 mod c03;
+mod c04;
 mod c05;
 mod c09;
+mod c11;
 mod sp;
 mod case;
 mod gen;
@@ -61,6 +63,14 @@ fn main() {
                     };
                     rep = Report::new(&prop, rule);
                     c09::run(&prop, tier == "thorough", seed, &driver, &mut rep);
+                }
+                "C04" => {
+                    rep = Report::new("C04", "random edit histories (five arena layouts incl. removed slots before the root) interleaved with the documented cache reset and with every read-only query in random order and multiplicity; id-level answers are compared with the model, name-level answers with the same queries on a tree freshly parsed from the current Newick text and with a second evaluation in another order; a case is one history; non-trivial = at least one successful edit followed by queries");
+                    c04::run(tier == "thorough", seed, &driver, &mut rep);
+                }
+                "C11" => {
+                    rep = Report::new("C11", "single editing operations on trees in four arena layouts: on every shape up to a node bound with two length masks EVERY argument (every node for prune incl. removed/out-of-range, every ordered pair for merge_children, several factors, several seeds for resolve), random operations on random trees to 60 nodes; the arena after the operation is compared with the model and with a rose-level expectation computed by the harness; a case is one (tree, operation); non-trivial = the operation succeeded");
+                    c11::run(tier == "thorough", seed, &driver, &mut rep);
                 }
                 "C02" => {
                     rep = Report::new("C02", "strings fed to Tree::from_newick (corpus, every string up to a length bound over the token alphabet ( ) , ; : [ ] \" a 1 space, every short float lexeme, mutated valid Newick, random Unicode); a case is one string; non-trivial = contains at least one structural token");
